@@ -1,0 +1,17 @@
+// Verification hook (only compiled with `--cfg cteenergymodel_verif`).
+//
+// Lets an external harness observe (and control the order of) the acquisitions of the
+// three global climate tables. Inert unless a harness installs `ACQUIRE`.
+
+use std::sync::OnceLock;
+
+/// Token handed back by the harness; dropped *after* the real guard (declared before it)
+pub type Token = Box<dyn std::any::Any>;
+
+/// Callback installed by the harness: called right before a global table is locked
+pub static ACQUIRE: OnceLock<fn(&'static str) -> Token> = OnceLock::new();
+
+/// Called at every lock site of the global climate tables
+pub fn acquire(id: &'static str) -> Option<Token> {
+    ACQUIRE.get().map(|f| f(id))
+}
